@@ -1,0 +1,48 @@
+//go:build verif
+
+// Contracts for package dtls: C06 anti-replay, DTLS 1.3 receive path (the DTLS 1.2 path shares its
+// functions with C05 and is in verif_contracts_c05.go). Comment-only; read by /verif/vc.
+package dtls
+
+// protectedReplayMarker (DTLS 1.3, RFC 9147 4.5.1): same usage protocol as legacyReplayMarker: the
+// detector of epoch e is ReplayDetector[e], created on first use with the *configured* window; the record
+// is checked exactly once with its own (decrypted) sequence number against the detector of its own
+// epoch; a refused record yields no accept closure.
+//@ func Conn.protectedReplayMarker
+//@ watch replaydetector.New ReplayDetector.Check
+//@ requires args: wfConn(c)
+//@ requires detector-present: int(epoch) < len(RD(c)) ==> RD(c)[int(epoch)] != nil
+//@ ensures check-once: ncalls("ReplayDetector.Check") == 1
+//@ ensures checked-own-number: argU64("ReplayDetector.Check", 1) == sequenceNumber
+//@ ensures result-is-check: result1 == retBool("ReplayDetector.Check", 1)
+//@ ensures refused-no-marker: !result1 ==> result0 == nil
+//@ ensures accepted-has-marker: result1 ==> result0 != nil
+//@ ensures detector-of-epoch: int(epoch) < len(RD(c)) && sameRef(argAs("ReplayDetector.Check", 0, RD(c)[0]), RD(c)[int(epoch)])
+//@ ensures window-from-config: called("replaydetector.New") ==> argAs("replaydetector.New", 0, c.replayProtectionWindow) == c.replayProtectionWindow
+//@ ensures own-detector-kept: int(epoch) < len(old(RD(c))) ==> !called("replaydetector.New") && sameRef(RD(c)[int(epoch)], old(RD(c)[int(epoch)]))
+//@ ensures never-shrinks: len(RD(c)) >= len(old(RD(c)))
+//@ ensures wf-kept: wfConn(c)
+//@ loop #1: wf-kept: wfConn(c)
+//@ loop #1: same-common: common == CS(c) && common != nil
+//@ loop #1: grows: len(common.ReplayDetector) >= len(old(RD(c)))
+//@ loop #1: bounded: len(common.ReplayDetector) > len(old(RD(c))) ==> len(common.ReplayDetector) <= int(epoch) + 1
+//@ loop #1: last-nonnil: len(common.ReplayDetector) > len(old(RD(c))) ==> common.ReplayDetector[len(common.ReplayDetector)-1] != nil
+//@ loop #1: present-untouched: int(epoch) < len(old(RD(c))) ==> !called("replaydetector.New") && sameSlice(common.ReplayDetector, old(RD(c))) && sameRef(common.ReplayDetector[int(epoch)], old(RD(c)[int(epoch)]))
+//@ loop #1: window-from-config: called("replaydetector.New") ==> argAs("replaydetector.New", 0, c.replayProtectionWindow) == c.replayProtectionWindow
+//@ loop #1: not-checked-yet: !called("ReplayDetector.Check")
+//@ end
+
+// bufferHandshakeRecord: a handshake record's replay slot is committed exactly once and only after the
+// reassembly buffer accepted the record as a handshake fragment; a record the buffer rejects (decode error)
+// or does not recognise as handshake is not committed here.
+//@ func Conn.bufferHandshakeRecord
+//@ watch param.markPacketAsValid FragmentBuffer.Push
+//@ requires args: wfConn(c) && header != nil && markPacketAsValid != nil
+//@ ensures commit-at-most-once: ncalls("param.markPacketAsValid") <= 1
+//@ ensures pushed-once: ncalls("FragmentBuffer.Push") == 1
+//@ ensures rejected-not-committed: retErr("FragmentBuffer.Push", 2) != nil ==> !called("param.markPacketAsValid") && !result2
+//@ ensures non-handshake-not-committed: retErr("FragmentBuffer.Push", 2) == nil && !retBool("FragmentBuffer.Push", 0) ==> !called("param.markPacketAsValid") && !result1 && !result2
+//@ ensures accepted-committed: retErr("FragmentBuffer.Push", 2) == nil && retBool("FragmentBuffer.Push", 0) ==> ncalls("param.markPacketAsValid") == 1 && result1 && result2 == retBool("param.markPacketAsValid", 0)
+//@ loop #1: committed-once: ncalls("param.markPacketAsValid") == 1 && ncalls("FragmentBuffer.Push") == 1 && retErr("FragmentBuffer.Push", 2) == nil && retBool("FragmentBuffer.Push", 0) && isLatestSeqNum == retBool("param.markPacketAsValid", 0)
+//@ loop #1: wf-kept: wfConn(c)
+//@ end
